@@ -873,6 +873,18 @@ pub struct SwarmDriver {
     pub(crate) network_density_samples: FifoRegister,
 }
 
+/// Conformance-harness access to the command channels (the event loop is not run by the harness).
+#[cfg(maidsafe_safe_network_verif)]
+impl SwarmDriver {
+    pub fn verif_try_recv_local_cmd(&mut self) -> Option<LocalSwarmCmd> {
+        self.local_cmd_receiver.try_recv().ok()
+    }
+
+    pub fn verif_try_recv_network_cmd(&mut self) -> Option<NetworkSwarmCmd> {
+        self.network_cmd_receiver.try_recv().ok()
+    }
+}
+
 impl SwarmDriver {
     /// Asynchronously drives the swarm event loop, handling events from both
     /// the swarm and command receiver. This function will run indefinitely,
